@@ -314,7 +314,10 @@ func get(i int, z *sizes) Scenario {
 		// non-determinism the scheduler does not own (with two keys the step sequence of one schedule differed between runs)
 		fresh++
 		v, w := Note(), Note()
-		v.ID = ap.IRI(fmt.Sprintf("https://example.com/notes/%08d/1", fresh%100000000))
+		// the ids carry a query (one repeated key, see below) in two orders: BOTH comparing threads take the query path with the same
+		// raw queries at the same time - whatever is remembered per raw query is shared between them
+		// (the counter is part of the query VALUES as well: what is remembered per raw query is new in every instance too)
+		v.ID = ap.IRI(fmt.Sprintf("https://example.com/notes/%08d/1?a=1%08d&a=0%08d", fresh%100000000, fresh%100000000, fresh%100000000))
 		w.ID = v.ID
 		for k := range v.To {
 			v.To[k] = ap.IRI(fmt.Sprintf("%s/%08d", v.To[k].GetLink(), fresh%100000000))
@@ -327,13 +330,13 @@ func get(i int, z *sizes) Scenario {
 			}
 			return ap.IRI(s + "/")
 		}
-		w.ID = respell(w.ID)
+		w.ID = ap.IRI(fmt.Sprintf("https://EXAMPLE.com/notes/%08d/1/?a=0%08d&a=1%08d", fresh%100000000, fresh%100000000, fresh%100000000))
 		for k, it := range w.To {
 			w.To[k] = respell(it.GetLink())
 		}
-		ids := ap.IRIs{ap.IRI(fmt.Sprintf("https://example.com/q%08d?a=1&a=0", fresh%100000000)), "https://example.com/notes/1", "https://example.com/q?x=1"}
+		ids := ap.IRIs{ap.IRI(fmt.Sprintf("https://example.com/q%08d?a=1%08d&a=0%08d", fresh%100000000, fresh%100000000, fresh%100000000)), "https://example.com/notes/1", "https://example.com/q?x=1"}
 		return mk("S10 ItemsEqual(note, respelled note) || IRIs.Contains(respelled id) || ItemsEqual(respelled, note)", []ap.Item{v, w, ids},
-			ItemsEqual(v, w), ContainsIRI(ids, ap.IRI(fmt.Sprintf("http://EXAMPLE.com/q%08d?a=0&a=1", fresh%100000000))), ItemsEqual(w, v))
+			ItemsEqual(v, w), ContainsIRI(ids, ap.IRI(fmt.Sprintf("http://EXAMPLE.com/q%08d?a=0%08d&a=1%08d", fresh%100000000, fresh%100000000, fresh%100000000))), ItemsEqual(w, v))
 	case 11:
 		// arguments that are not vocabulary structs: one IRI list and one item list, shared BY POINTER, viewed as item lists and
 		// compared from three threads (a helper that rebuilds such a list and stores it back through the pointer is a writer)
